@@ -5,6 +5,7 @@ package client
 import (
 	"github.com/aws/aws-sdk-go-v2/aws"
 	"github.com/aws/aws-sdk-go-v2/service/dynamodb"
+	"github.com/aws/aws-sdk-go-v2/service/dynamodb/types"
 	"github.com/truora/minidyn/internal/nd"
 )
 
@@ -34,7 +35,19 @@ func vWithout(seq []vItem, key vItem) []vItem {
 func VerifC04Pages() {
 	n := nd.Param("n", 3)
 	c := vClient(true)
-	nd.Assert(AddIndex(vCtx, c, vTbl, vIdx, "g", "h") == nil, "setup-addindex")
+	// the index projects everything or its keys only: pagination through it works either way (what a page
+	// holds is compared with what the unpaginated read through the same index holds)
+	if nd.Param("index", 2) != 0 && nd.Choice("index-projection", 2) == 1 {
+		nd.Reach("keys-only-index")
+		_, uerr := c.UpdateTable(vCtx, &dynamodb.UpdateTableInput{TableName: aws.String(vTbl),
+			AttributeDefinitions: []types.AttributeDefinition{{AttributeName: aws.String("g"), AttributeType: types.ScalarAttributeTypeS}, {AttributeName: aws.String("h"), AttributeType: types.ScalarAttributeTypeS}},
+			GlobalSecondaryIndexUpdates: []types.GlobalSecondaryIndexUpdate{{Create: &types.CreateGlobalSecondaryIndexAction{IndexName: aws.String(vIdx),
+				KeySchema:  []types.KeySchemaElement{{AttributeName: aws.String("g"), KeyType: types.KeyTypeHash}, {AttributeName: aws.String("h"), KeyType: types.KeyTypeRange}},
+				Projection: &types.Projection{ProjectionType: types.ProjectionTypeKeysOnly}}}}})
+		nd.Assert(uerr == nil, "setup-addindex-keys-only")
+	} else {
+		nd.Assert(AddIndex(vCtx, c, vTbl, vIdx, "g", "h") == nil, "setup-addindex")
+	}
 	// one partition ("a") and one index partition ("g"): the sort keys, the index sort keys (which may
 	// coincide: equal index keys) and the filter attribute are symbolic
 	// parts=1: the partition key of every item (and its index partition key) is symbolic too, so that a Scan
